@@ -45,12 +45,29 @@ def attr_case(task):
 
 
 def _attr_case(task):
+    out = _attr_case_style(task, False)
+    # the dictionary reading.parameters() builds from a parameter file also
+    # carries the domain bounds (xmax = one spacing past the last point when
+    # the upper boundary is shifted out), lengths and other entries
+    more = _attr_case_style(task, True)
+    out['bad'] += [('parfile-style-param',) + tuple(b) for b in more['bad']]
+    return out
+
+
+def _attr_case_style(task, parfile):
     from aurel.finitedifference import FiniteDifference
     axis, N, mn, d, order = task
     p = param_for(axis, N, mn, d)
     bad = []
+    given = dict(p)
+    if parfile:
+        for c in 'xyz':
+            given[c + 'max'] = p[c + 'min'] + p['N' + c] * p['d' + c]
+            given['L' + c] = (p['N' + c] + 1) * p['d' + c]
+        given.update({'simname': 'sim', 'max_refinement_levels': 1,
+                      'list_of_thorns': ['CoordBase'], 'ghost_size': 3})
     with quiet():
-        fd = FiniteDifference(dict(p), boundary='no boundary',
+        fd = FiniteDifference(given, boundary='no boundary',
                               fd_order=order, verbose=False)
     shape = (p['Nx'], p['Ny'], p['Nz'])
     for a, c in enumerate('xyz'):
